@@ -170,7 +170,7 @@ func newScratch(p *Prop, withTests bool) (*scratch, map[string][]byte, error) {
 			texts[name] = string(b)
 			fmt.Fprintf(&glue, "\te2e_%s %q\n", name, p.PkgPath+"/e2e_"+name)
 			twin := strings.Replace(string(b), "package main", "package e2e_"+name, 1)
-			twin = strings.Replace(twin, "import \"host\"", "var host struct {\n\tA, B func() int\n\tOut  func(int)\n}\n\n// Bind connects the program to its inputs and output.\nfunc Bind(a, b func() int, out func(int)) { host.A, host.B, host.Out = a, b, out }", 1)
+			twin = strings.Replace(twin, "import \"host\"", e2eHostDecl, 1)
 			twin = strings.Replace(twin, "func main()", "func Main()", 1)
 			sub := filepath.Join(dir, "e2e_"+name)
 			os.MkdirAll(sub, 0o755)
@@ -187,7 +187,7 @@ func newScratch(p *Prop, withTests bool) (*scratch, map[string][]byte, error) {
 		for _, n := range names {
 			fmt.Fprintf(&glue, "\t%q: %s,\n", n, strconv.Quote(texts[n]))
 		}
-		glue.WriteString("}\n\nvar vhTwinBind = map[string]func(a, b func() int, out func(int)){\n")
+		glue.WriteString("}\n\nvar vhTwinBind = map[string]func(map[string]interface{}){\n")
 		for _, n := range names {
 			fmt.Fprintf(&glue, "\t%q: e2e_%s.Bind,\n", n, n)
 		}
@@ -1089,3 +1089,32 @@ func tail(s string, n int) string {
 	}
 	return strings.Join(l, "\n")
 }
+
+// e2eHostDecl replaces the import of the host package in the compiled twin of an end-to-end
+// program: the same functions as the table the harness gives the interpreter (harness/E2E.go vhHost).
+const e2eHostDecl = `import (
+	"fmt"
+	"io"
+	"sort"
+)
+
+var host struct {
+	A, B  func() int
+	Out   func(int)
+	Str   func(fmt.Stringer)
+	Err   func(error)
+	Sort  func(sort.Interface)
+	Read  func(io.Reader)
+	Write func(io.Writer)
+}
+
+// Bind connects the program to its inputs and outputs.
+func Bind(h map[string]interface{}) {
+	host.A, host.B = h["A"].(func() int), h["B"].(func() int)
+	host.Out = h["Out"].(func(int))
+	host.Str = h["Str"].(func(fmt.Stringer))
+	host.Err = h["Err"].(func(error))
+	host.Sort = h["Sort"].(func(sort.Interface))
+	host.Read = h["Read"].(func(io.Reader))
+	host.Write = h["Write"].(func(io.Writer))
+}`
